@@ -32,13 +32,14 @@ MKaReq    == WithReqs /\ UNCHANGED epochs /\ KeepaliveReq
 MDown     == UNCHANGED epochs /\ \E r \in BOOLEAN : LinkDown(r)
 MReset    == UNCHANGED epochs /\ UsbReset
 MResetUp  == WithReqs /\ ResetUp /\ epochs' = epochs + 1
+MDReset   == WithReqs /\ DomainReset /\ epochs' = epochs + 1
 MUp       == LinkUp /\ epochs' = epochs + 1
 MTxStart  == UNCHANGED epochs /\ TxStart
 MTxEnd    == UNCHANGED epochs /\ \E c \in Cmds, s \in 0..7 : TxEndFresh(c, s)
 MTxStale  == UNCHANGED epochs /\ TxEndStale
 MQuiet    == UNCHANGED epochs /\ Quiet
 
-MCNext == MHdr \/ MLrty \/ MConsume \/ MRetryReq \/ MKaReq \/ MDown \/ MReset \/ MResetUp \/ MUp
+MCNext == MHdr \/ MLrty \/ MConsume \/ MRetryReq \/ MKaReq \/ MDown \/ MReset \/ MResetUp \/ MDReset \/ MUp
           \/ MTxStart \/ MTxEnd \/ MTxStale \/ MQuiet
 
 MCSpec == MCInit /\ [][MCNext]_mvars
